@@ -22,7 +22,22 @@ PROFILE = P.profile(entry_w={"tree": 8, "hms": 1, "minimize": 1},
 
 
 def gen(seed, tier):
-    return P.gen_plan(seed, PROFILE, PROP)
+    pl = P.gen_plan(seed, PROFILE, PROP)
+    if "levels" in pl:
+        import random as _rm
+
+        rm = _rm.Random(seed ^ 0x10CA1)
+        for l in pl["levels"]:
+            if l["engine"] == "local":
+                # scipy matches method names case-insensitively
+                l["method"] = rm.choice(["L-BFGS-B", "L-BFGS-B", "l-bfgs-b", "L-bfgs-b"])
+    if "levels" in pl and seed % 7 == 3 and not pl.get("bounds_int") and not pl.get("stack_objectives"):
+        # a user wrapper that declares a region of interest inside the wrapped problem's (larger) box
+        for st in pl["stacks"]:
+            if not any(l.get("pre_evals") for l in st["layers"]):
+                st["layers"].insert(rm.randrange(len(st["layers"]) + 1), {"kind": "subbox"})
+        pl.pop("bounds_form", None)
+    return pl
 
 
 class C01Monitor(Monitor):
@@ -38,6 +53,10 @@ class C01Monitor(Monitor):
             b = np.asarray(self.w.plan["box"], dtype=float)
             return b[:, 0], b[:, 1]
         b = self.w.stacks[stack_id]["fnp"]._bounds
+        sts = self.w.plan.get("stacks") or []
+        if stack_id < len(sts) and any(l["kind"] == "subbox" for l in sts[stack_id]["layers"]):
+            b = self.w.plan["box"]  # the box the user's wrapper declares (the innermost problem's is larger)
+            self.w.probe("c01-declared-sub-box-judged")
         b = np.asarray(b, dtype=float)
         return b[:, 0], b[:, 1]
 
